@@ -471,7 +471,8 @@ func init() {
 				steerPriceWindow(r, sc, false)
 			}
 			// a share of the runs enumerates every restart point (and, thorough, every pair) of a short history
-			if r.Intn(5) == 0 {
+			// (not with the full-slot candidate: every enumerated restart reloads its thousand stakes)
+			if !fullSlots && r.Intn(5) == 0 {
 				sc.Params = map[string]int64{"c09_enum": 1}
 				n := 14 + r.Intn(14)
 				if tier == "thorough" {
